@@ -17,7 +17,7 @@ package proxy
 //       goroutine during the back-off at most the one attempt that may already have been
 //       decided can start;
 //   A5  result / status / body seen by the client are those of the last attempt made;
-//   A6  hanging backend + pool timeout => result "timeout", 408 (harness watchdog 30 s =>
+//   A6  hanging backend + pool timeout => result "timeout", 408 (harness watchdog 120 s =>
 //       inconclusive).
 
 import (
@@ -219,7 +219,7 @@ func c10Check(c *c10Case, res *c10Result) []string {
 	last := res.Attempts[m-1]
 	wr, ws, wb := c10ExpectFinal(last)
 	okFinal := res.Result == wr && res.Status == ws && res.Body == wb
-	if !okFinal && last.Kind == "neterr" && res.Cancelled && res.Result == resultClientError && res.Status == 499 && res.Body == "" {
+	if !okFinal && last.Kind == "neterr" && res.CancelAsked && res.Result == resultClientError && res.Status == 499 && res.Body == "" {
 		// a transport error that surfaces after the client has gone is the client's
 		okFinal = true
 	}
@@ -264,7 +264,7 @@ func TestVerif_C10_Retry(t *testing.T) {
 			r.Sample(map[string]interface{}{"case": c, "observed": res})
 		}
 		if res.Watchdog {
-			r.Inconclusive(fmt.Sprintf("harness watchdog (30 s) fired in class %s", c.Class))
+			r.Inconclusive(fmt.Sprintf("harness watchdog (120 s) fired in class %s", c.Class))
 			p.Close()
 			continue
 		}
